@@ -120,29 +120,32 @@ type origin struct { // the applied entry (or local read) that produced a respon
 }
 
 type call struct {
-	w       int    // waiter / call number within the case
-	kind    string // "propose" | "read"
-	store   int
-	region  uint64
-	tag     int
-	req     *pb.RaftCmdRequest
-	state   string // raft state of the local peer observed right before the call
-	gid     uint64
-	done    chan struct{}
-	resp    *pb.RaftCmdResponse
-	err     error
-	regID   uint64 // request id under which the proposal waits (0 = never registered)
-	settled bool
-	closed  bool // result already reported in the trace
-	began   bool // read passed validateCommand
+	w         int    // waiter / call number within the case
+	kind      string // "propose" | "read"
+	store     int
+	region    uint64
+	tag       int
+	req       *pb.RaftCmdRequest
+	state     string // raft state of the local peer observed right before the call
+	gid       uint64
+	done      chan struct{}
+	resp      *pb.RaftCmdResponse
+	err       error
+	regID     uint64 // request id under which the proposal waits (0 = never registered)
+	settled   bool
+	closed    bool // result already reported in the trace
+	began     bool // read passed validateCommand
+	abandoned bool // its store was restarted underneath it
 }
 
 type kit struct {
-	caseNo int
-	dbs    [nStores + 1]*NoKV.DB
-	stores [nStores + 1]*store.Store
-	peers  map[uint64]*peer.Peer
-	net    *netw
+	caseNo       int
+	disk         bool // raft logs on disk (engine.DiskStorage) so that a store can be restarted
+	restartMarks []restartMark
+	dbs          [nStores + 1]*NoKV.DB
+	stores       [nStores + 1]*store.Store
+	peers        map[uint64]*peer.Peer
+	net          *netw
 
 	mu       sync.Mutex
 	trace    []string // pipeline-level event lines (the language of the Lean pipeline model)
@@ -158,37 +161,80 @@ type kit struct {
 	quiet    bool // direct pipeline op in progress: the op itself is the event
 }
 
-func newKit() *kit {
+func newKit(disk bool) *kit {
 	caseNo++
-	k := &kit{caseNo: caseNo, peers: map[uint64]*peer.Peer{}, net: &netw{}, origins: map[*pb.RaftCmdResponse]origin{},
+	k := &kit{caseNo: caseNo, disk: disk, peers: map[uint64]*peer.Peer{}, net: &netw{}, origins: map[*pb.RaftCmdResponse]origin{},
 		applied: map[[2]uint64][]string{}, nextTs: 10, acked: map[uint64][]string{}}
 	for s := 1; s <= nStores; s++ {
 		k.dbs[s] = sharedDB(s)
-		k.stores[s] = store.NewStoreWithConfig(store.Config{StoreID: uint64(s), CommandApplier: k.applier(s), CommandTimeout: 60 * time.Second})
+		k.startStore(s)
 	}
+	return k
+}
+
+// startStore creates the store object of store s and starts its peers (bootstrapping them on
+// first start; a restarted peer finds its raft log in its storage directory).
+func (k *kit) startStore(s int) {
+	k.stores[s] = store.NewStoreWithConfig(store.Config{StoreID: uint64(s), CommandApplier: k.applier(s), CommandTimeout: 60 * time.Second})
 	for r := uint64(1); r <= nRegions; r++ {
 		var metaPeers []manifest.PeerMeta
 		var boot []myraft.Peer
-		for s := 1; s <= nStores; s++ {
-			metaPeers = append(metaPeers, manifest.PeerMeta{StoreID: uint64(s), PeerID: peerID(r, s)})
-			boot = append(boot, myraft.Peer{ID: peerID(r, s)})
+		for t := 1; t <= nStores; t++ {
+			metaPeers = append(metaPeers, manifest.PeerMeta{StoreID: uint64(t), PeerID: peerID(r, t)})
+			boot = append(boot, myraft.Peer{ID: peerID(r, t)})
 		}
-		for s := 1; s <= nStores; s++ {
-			region := &manifest.RegionMeta{ID: r, StartKey: []byte(regionStart[r]), EndKey: []byte(regionEnd[r]),
-				Epoch: manifest.RegionEpoch{Version: 1, ConfVersion: 1}, Peers: metaPeers}
-			cfg := &peer.Config{
-				RaftConfig: myraft.Config{ID: peerID(r, s), ElectionTick: 1 << 30, HeartbeatTick: 1,
-					MaxSizePerMsg: 1 << 20, MaxInflightMsgs: 256, Logger: hlib.QuietRaftLogger{}},
-				Transport: k.net, GroupID: r, Region: region,
-			}
-			p, err := k.stores[s].StartPeer(cfg, boot)
-			if err != nil {
-				panic(fmt.Sprintf("StartPeer r%d s%d: %v", r, s, err))
-			}
-			k.peers[peerID(r, s)] = p
+		region := &manifest.RegionMeta{ID: r, StartKey: []byte(regionStart[r]), EndKey: []byte(regionEnd[r]),
+			Epoch: manifest.RegionEpoch{Version: 1, ConfVersion: 1}, Peers: metaPeers}
+		cfg := &peer.Config{
+			RaftConfig: myraft.Config{ID: peerID(r, s), ElectionTick: 1 << 30, HeartbeatTick: 1,
+				MaxSizePerMsg: 1 << 20, MaxInflightMsgs: 256, Logger: hlib.QuietRaftLogger{}},
+			Transport: k.net, GroupID: r, Region: region,
+		}
+		if k.disk {
+			cfg.StorageDir = fmt.Sprintf("%s/raft-case%d/peer%d", sharedDir, k.caseNo, peerID(r, s))
+		}
+		p, err := k.stores[s].StartPeer(cfg, boot)
+		if err != nil {
+			panic(fmt.Sprintf("StartPeer r%d s%d: %v", r, s, err))
+		}
+		k.peers[peerID(r, s)] = p
+	}
+}
+
+// restart stops the peers and the store object of store s and starts them again from the raft
+// logs on disk: a new process image of the raftstore layer (fresh proposal pipeline), the state
+// machine (DB) survives.  Clients of the old image never get an answer.
+func (k *kit) restart(s int) {
+	if !k.disk {
+		return
+	}
+	for _, c := range k.calls {
+		if c.store == s && !c.settled {
+			c.abandoned = true
 		}
 	}
-	return k
+	for r := uint64(1); r <= nRegions; r++ {
+		k.stores[s].StopPeer(peerID(r, s))
+		delete(k.peers, peerID(r, s))
+	}
+	k.stores[s].Close()
+	k.mu.Lock()
+	for r := uint64(1); r <= nRegions; r++ {
+		k.restartMarks = append(k.restartMarks, restartMark{store: s, region: r, pos: len(k.applied[[2]uint64{uint64(s), r}])})
+	}
+	k.event(fmt.Sprintf("p.restart %d", s), "ok")
+	k.mu.Unlock()
+	k.startStore(s)
+	for r := uint64(1); r <= nRegions; r++ {
+		_ = k.peers[peerID(r, s)].Flush()
+	}
+	k.collect()
+}
+
+type restartMark struct {
+	store  int
+	region uint64
+	pos    int
 }
 
 func (k *kit) close() {
@@ -203,6 +249,9 @@ func (k *kit) close() {
 	}
 	for s := 1; s <= nStores; s++ {
 		k.stores[s].Close()
+	}
+	if k.disk {
+		os.RemoveAll(fmt.Sprintf("%s/raft-case%d", sharedDir, k.caseNo))
 	}
 }
 
@@ -658,7 +707,7 @@ func (k *kit) launch(kind string, s int, region uint64, tag int, req *pb.RaftCmd
 // collect reports every call that has returned since the last look.
 func (k *kit) collect() {
 	for _, c := range k.calls {
-		if c.closed {
+		if c.closed || c.abandoned {
 			continue
 		}
 		if !c.settled {
